@@ -89,8 +89,8 @@ def gen_input(rng, family, dim, periodic, nmax=40):
                 c = rng.below(4)
                 if c == 0:
                     p[a] = anchor[a]
-                elif c == 1 and not periodic:
-                    p[a] = anchor[a] + width[a]
+                elif c == 1:
+                    p[a] = anchor[a] + width[a]      # periodic: the same point as the lower wall, given with the other representative
             gens.append(p)
     elif family == "cospherical":
         # scaled integer points on a common sphere / circle around the box centre
